@@ -50,6 +50,10 @@ def near_misses(rng, el):
         ms.append(dict(base, style_name=("^=", n[:3].upper())))
         ms.append(dict(base, style_name=("=", n[:-1])))
         ms.append(dict(base, style_name=("^=", n[1:])))
+        # white space counts: a name padded with a space is another name, a prefix ending in a space is a longer prefix
+        ms.append(dict(base, style_name=("=", n + " ")))
+        ms.append(dict(base, style_name=("=", " " + n.lower())))
+        ms.append(dict(base, style_name=("^=", (n.split(" ")[0] if " " in n else n[:3]) + "  ")))
     else:
         ms.append(dict(base, style_name=("^=", "")))
     if k == "p":
